@@ -514,11 +514,14 @@ def C03(run):
     _mc_store(run, "quick" if q else "thorough")
     _store_trace(run, "C03:")
     # design level: Pipeline.tla (gate, undo signalling, client) under every fork history over 7-8 heights x 3 branches with up
-    # to 4-5 reorganisations, for a request whose start block cannot be reorganised away; with a start block ABOVE a junction the
-    # model has the counterexample of open finding D11 (required to still be there: the model transcribes the code as it is)
+    # to 4-5 reorganisations, for a request whose start block cannot be reorganised away
     run.model_check("MCPipeline", "MCPipeline_safe.cfg" if q else "MCPipeline_thorough.cfg", workers=8, timeout=1800)
-    res = run.tlc("MCPipeline", "MCPipeline_d11.cfg", workers=2, timeout=300, expect_violation=True)
-    run.cov["design_level_open_finding_D11_reproduced"] = bool(res.get("invariant_violated"))
+    # start block ABOVE a junction (D11): with the repaired gate no data below the start block and the client converges
+    # (checked), while the undo signal still designates a junction the client never held (open finding: the model must
+    # still have that counterexample - it transcribes the code as it is)
+    run.model_check("MCPipeline", "MCPipeline_d11.cfg", workers=4, timeout=600)
+    res = run.tlc("MCPipeline", "MCPipeline_d11_undo.cfg", workers=2, timeout=300, expect_violation=True)
+    run.cov["design_level_open_finding_D11_undo_signal_reproduced"] = bool(res.get("invariant_violated"))
     _mc_reconnect(run)
     # pipeline level: fork histories produced by the real bstream/forkable, through the real tier1 pipeline
     trf, _ = _system_trace(run, "C03:", "forks", n=(24 if q else 1500))
